@@ -23,11 +23,11 @@ def gen(rng, tier):
         count = rng.choice([1, 2, 2, 3, 3, 3, 3, 4])
         rounds = rng.randrange(1, 5 if quick else 7)
         k = rng.choice([1, 2, 2, 3, 3])
-        env = sched_env(rng, budget=400000)
+        env = sched_env(rng, budget=60000)
         if i % 3 == 0:
             # the window "arrived (fetch_add done) but not yet enqueued" is what matters here:
             # freeze a kernel thread right after a store for a long stretch
-            env = {"VR_SEED": env["VR_SEED"], "VR_SCHED": "freeze", "VR_BUDGET": 400000,
+            env = {"VR_SEED": env["VR_SEED"], "VR_SCHED": "freeze", "VR_BUDGET": 60000,
                    "VR_FREEZE_DEN": rng.choice([4, 6, 10, 15]), "VR_FREEZE_LEN": rng.choice([80, 300, 1000])}
         cases.append({"args": [k, gen_script(rng, count, rounds)], "env": env})
     return cases
@@ -45,7 +45,8 @@ SPEC = {
         "trusted_base": [
             "waiter queue kept abstractly (ghost order + linked flags), validated against every logged access; its adequacy for all interleavings is C15 (Mpsc.pop_is_next_in_order / empty_justified)",
             "scheduler traffic on fiber state words is skipped here and covered by the runtime model (C01/C02)",
-            "'all of them do return' is decided per run by the scheduler's HANG/BUDGET status, not by a Lean liveness theorem (Lean side: Barrier pending_accounted / no_stranded)"],
+            "'all of them do return' is decided per run (status HANG, or the Lean end-of-log oracle `Barrier.stuck` on the model's final state: no fiber can ever move again; an exhausted budget alone is inconclusive under strict-priority schedules), not by a Lean liveness theorem; the Lean side proves the safety half (C12.pending_accounted, C12.no_stranded_*)",
+            "number of waiter queues (1 = code as it is, 2 = docs/fix-C12.diff) is read by the harness from sizeof(fiber_barrier_t.waiters) at compile time and passed to the model in the init note"],
         "assumptions": ["client contract from the property: exactly `count` participating fibers, each taking part in every round"],
     },
 }
